@@ -37,6 +37,11 @@ fn main() {
             let precs: Vec<usize> = optc::<String>(&argv, "--precs").unwrap().split(',').map(|x| x.parse().unwrap()).collect();
             drive::drive_ans(w, s, &precs, seed, n as usize, &optc::<String>(&argv, "--trace").unwrap())
         }
+        "drive_range" => {
+            let w: u32 = optc(&argv, "--w").unwrap(); let s: u32 = optc(&argv, "--s").unwrap();
+            let precs: Vec<usize> = optc::<String>(&argv, "--precs").unwrap().split(',').map(|x| x.parse().unwrap()).collect();
+            drive::drive_range(w, s, &precs, seed, n as usize, &optc::<String>(&argv, "--trace").unwrap())
+        }
         "replay" => ans_replay::replay_file(&input.expect("--in"), &mode, &skip),
         _ => { eprintln!("unknown command {} (seed {}, n {})", cmd, seed, n); std::process::exit(2) }
     });
